@@ -556,6 +556,65 @@ def ob_test_argv():
     return h
 
 
+def ob_test_argv_setup():
+    """meson test --setup NAME: the real TestHarness.get_test_runner -> merge_setup_options -> SingleTestRunner for TWO tests in a row (then run up to
+    create_subprocess_exec, a recorder). The setup has an exe_wrapper (with a symbolic argument) or none, and a timeout multiplier; -t is given on the command
+    line or not. Every test's argv is the setup's wrapper + ITS OWN program and arguments - nothing of the test before -, the setup object is the same
+    afterwards, and the time limit follows the command line when -t is given (0 = no limit) and the setup otherwise"""
+    def h():
+        import asyncio, argparse, types
+        from mesonbuild import mtest, build
+        from mesonbuild.backend.backends import TestSerialisation, TestProtocol
+        from mesonbuild.utils.core import EnvironmentVariables
+        WA2 = "a $'\\"
+        wrap = ['wrap', sym_str(1, 'wrapper_arg', alphabet=WA2)] if choose(2, 'setup has an exe_wrapper') else []
+        sm = sym_int('setup_multiplier', 0, 3)
+        cm = None if choose(2, '-t given') == 0 else sym_int('cmdline_multiplier', 0, 3)
+        setup = build.TestSetup(exe_wrapper=list(wrap), gdb=False, timeout_multiplier=sm, env=EnvironmentVariables(), exclude_suites=[])
+        tests = []
+        for i in range(2):
+            a = [sym_str(1, 'arg%d' % i, alphabet=WA2)]
+            tests.append(TestSerialisation(name='t%d' % i, project_name='p', suite=['p'], fname=['/bld/prog%d' % i], is_cross_built=False, exe_wrapper=None, needs_exe_wrapper=False,
+                                           is_parallel=True, cmd_args=a, env=EnvironmentVariables(), expected_fail=False, expected_exitcode=None, timeout=30, workdir=None,
+                                           extra_paths=[], protocol=TestProtocol.EXITCODE, priority=0, cmd_is_built=True, cmd_is_exe=True, depends=[], version='1.0', verbose=False, exe_fname='/bld/prog%d' % i))
+        th = object.__new__(mtest.TestHarness)
+        th.options = argparse.Namespace(timeout_multiplier=cm, interactive=False, num_processes=2, benchmark=False, wrapper=None, gdb=False, gdb_path='gdb', no_rebuild=False,
+                                        verbose=False, quiet=False, test_args=[], split=False, repeat=1, setup='p:s')
+        th.build_data = types.SimpleNamespace(test_setups={'p:s': setup})
+        rec = []
+
+        class Stop(Exception): pass
+
+        async def fake_exec(*a, **kw):
+            rec.append(list(a)); raise Stop()
+        saved = asyncio.create_subprocess_exec
+        asyncio.create_subprocess_exec = fake_exec
+        try:
+            for i, t in enumerate(tests):
+                runner = th.get_test_runner(t, 0)
+                mult = cm if cm is not None else sm
+                if decide(mult <= 0): check(runner.timeout is None, 'a multiplier <= 0 (command line first, else the setup) means no limit')
+                else: check(runner.timeout is not None and decide(bt_any(eq(runner.timeout, 30 * mult))), 'the limit is timeout x multiplier (command line first, else the setup)')
+                loop = asyncio.new_event_loop()
+                try:
+                    try: loop.run_until_complete(runner.run(types.SimpleNamespace(log_start_test=lambda r: None)))
+                    except Stop: pass
+                finally:
+                    loop.close()
+                check(len(rec) == i + 1, 'one process is started per test')
+                if len(rec) != i + 1: return
+                exp = list(wrap) + ['/bld/prog%d' % i] + list(t.cmd_args)
+                got = rec[i]
+                check(len(got) == len(exp), 'argv: the setup wrapper + the program + the test arguments of THIS test')
+                if len(got) == len(exp):
+                    for g, e in zip(got, exp): check(eq(g, e), 'argv: every argument is the same string, in the same position')
+        finally:
+            asyncio.create_subprocess_exec = saved
+        check(len(setup.exe_wrapper) == len(wrap), 'the test setup is not changed by running tests with it')
+        cover('started')
+    return h
+
+
 def ob_project_commands(dim):
     """custom_target() and generator() commands of a WHOLE configuration (real Interpreter, real NinjaBackend.generate on a generated project without a compiled
     language - harness/proj.py): the argv Ninja would execute for every custom target and for the generator, decoded from build.ninja with the reference Ninja
@@ -624,6 +683,8 @@ def obligations(tier):
         out.append(Obligation('join-split%s' % lens, ob_joinsplit(lens), dict(arg_lengths=lens), labels=('done',), max_paths=3000000))
     out.append(Obligation('link-arg-sources', ob_link_arg_sources(), dict(real='Compiler.get_build_link_args, Build.get_project_link_args / get_global_link_args', lists='0-2 symbolic 1-char strings each', targets='2-3 in sequence'), labels=('done',)))
     out.append(Obligation('test-argv', ob_test_argv(), dict(real='mtest.SingleTestRunner.__init__/run/_run_cmd/_run_subprocess, TestHarness.get_wrapper; asyncio.create_subprocess_exec recorded', args='1-2 of 1-2 chars over {a, space, $, quote, backslash}', test_args='0-1', wrapper='none | --wrapper with a symbolic argument | --gdb', protocol='exitcode | tap'), labels=('started',), max_paths=3000000))
+    out.append(Obligation('test-argv-setup', ob_test_argv_setup(), dict(real='TestHarness.get_test_runner / merge_setup_options / SingleTestRunner.__init__ / run up to create_subprocess_exec', tests='2 in a row', setup='exe_wrapper with a symbolic argument | none; timeout_multiplier 0..3',
+                          command_line='-t absent | 0..3'), labels=('started',), max_paths=1000000))
     out.append(Obligation('project-commands', ob_project_commands('inputs'), dict(real='Interpreter.run + NinjaBackend.generate on a generated project without a compiled language', commands='3 custom targets (@INPUT@, @OUTPUT@, @OUTPUT0@, a target output as an argument) and a generator (@INPUT@, two @OUTPUTn@ in one argument)',
                           symbolic='build_by_default x2, build_always_stale, install, the index into a multi-output target'), labels=('done', 'generator'), max_paths=2000000, path_timeout=300, classify=__import__('harness.proj', fromlist=['classify']).classify))
     return out
